@@ -1,5 +1,6 @@
 import JoblibProofs.Lemmas.ParallelProto
 import JoblibProofs.Lemmas.ParallelSeq
+import JoblibProofs.Lemmas.ParallelStartup
 /-!
 # C04 — Task failures surface as that exception; Parallel stays reusable and clean
 
@@ -19,6 +20,12 @@ of failing tasks and of the failing iterator step, ALL configurations with `n_jo
 `backend.abort_everything` (`between_calls_noop`, `abort_deliveries_are_noops`), all three `return_as` modes (except `timeout_raises`, stated for the ordered
 retrieval branch), all sequences of calls on one object (through `Idle`, which every call re-establishes). By
 invariants and induction, never by enumeration. Not covered: worker-side traceback capture.
+
+Failures DURING THE START-UP of a call (F52; section "start-up failures" below, model
+`JoblibModel.ParallelStartup`): ALL fault placements (`len(iterable)`, `backend.configure`, `n_jobs == 0`,
+`backend.start_call`, `iter(iterable)`, the `pre_dispatch` resolution, `islice`), ALL idle states of the object (any
+history of calls, failed start-ups and between-calls completions: `Reach`), ALL schedules, both `n_jobs ≠ 1` and the
+sequential path; `startGuard = false` (the code before the repair) is refuted on a concrete two-call history.
 -/
 namespace C04
 open JoblibModel.ParallelProto
@@ -361,5 +368,194 @@ example : (seqCallList (⟨1, false, [2], 0, 2, 0, -1, false, true⟩ : Cfg) 20 
     ({ failIds := [2, 4] } : St)).2 = .raised (.task 2) := by decide
 
 end Sequential
+
+/-! ### start-up failures (F52) -/
+
+section Startup
+open JoblibModel.ParallelStartup JoblibModel.ParallelSeq
+
+/-- FAILED START RAISES THE FAULT. On an idle object — with or without the guard, whatever the schedule delivers
+while `backend.configure` runs — a call whose start-up hits a reached fault ends with exactly the event
+`raise <the fault's exception>` appended to the state `failedStart` computes, and in that state NOTHING was
+dispatched and no task of this call ran: the tracker table is unchanged (no batch was created), the job queues are
+empty, the dispatch / completion counters are 0, and the backend's parked batches are a sublist of those parked
+before (anything the backend executed meanwhile was a leftover batch of an EARLIER call, completing as a no-op). The
+same holds on the sequential path for the faults that strike before the `n_jobs == 1` test. -/
+theorem failed_start_raises_the_fault (c : Cfg) (guard : Bool) (fuel base : Nat) (spec : CallSpec) (f : Fault)
+    {s : St} (hi : Idle s) :
+    (reached f s = true →
+      runCallF c guard fuel base spec f s = ev (failedStart c guard f base spec s) ("raise " ++ faultStr f)) ∧
+    (reachedCommon f s = true →
+      seqRunCallF c guard fuel base spec f s = ev (failedStart c guard f base spec s) ("raise " ++ faultStr f)) ∧
+    (failedStart c guard f base spec s).trk = s.trk ∧
+    (failedStart c guard f base spec s).parked.Sublist s.parked ∧
+    (failedStart c guard f base spec s).jobs = [] ∧ (failedStart c guard f base spec s).jobsSet = [] ∧
+    (failedStart c guard f base spec s).nDispTasks = 0 ∧ (failedStart c guard f base spec s).nDispBatches = 0 ∧
+    (failedStart c guard f base spec s).nCompleted = 0 := by
+  refine ⟨fun hr => ?_, fun hr => ?_, ?_⟩
+  · unfold runCallF
+    rw [if_pos hr, if_neg (by simp [hi.running])]
+  · unfold seqRunCallF
+    rw [if_pos hr, if_neg (by simp [hi.running])]
+  · obtain ⟨X, e, hP, _⟩ := failedStart_pre c guard f base spec hi
+    rw [e]
+    cases guard with
+    | false =>
+      rw [guardCleanup_false]
+      exact ⟨hP.trk, hP.parked, hP.jobs.trans hi.jobs, hP.jobsSet.trans hi.jobsSet, hP.zero.1, hP.zero.2.1,
+        hP.zero.2.2.1⟩
+    | true =>
+      have hQ := hP.post
+      exact ⟨hQ.trk, hQ.parked, hQ.jobs.trans hi.jobs, hQ.jobsSet.trans hi.jobsSet, hQ.zero.1, hQ.zero.2.1,
+        hQ.zero.2.2.1⟩
+
+/-- FAILED START LEAVES CLEAN. With the guard of `Parallel.__call__` (/repo as it is), after a start-up that failed
+at ANY of the seven fault points the object is `Clean` (`_running = False`, `_calling = False`, empty job queues) and
+`Idle` in the sense of `clean_after_call` — exactly the state class every other call ends in — inside or outside a
+`with` block (`managed` unchanged), with nothing hung. -/
+theorem failed_start_leaves_clean (c : Cfg) (f : Fault) (base : Nat) (spec : CallSpec) {s : St} (hi : Idle s) :
+    Clean (failedStart c true f base spec s) ∧ Idle (failedStart c true f base spec s) ∧
+    (failedStart c true f base spec s).hung = s.hung ∧ (failedStart c true f base spec s).managed = s.managed ∧
+    (failedStart c true f base spec s).failIds = s.failIds := by
+  have hP := failedStart_post c f base spec hi
+  exact ⟨hP.clean hi, hP.idle hi, hP.hung, hP.managed, hP.failIds⟩
+
+/-- FAILED START RELEASES THE BACKEND as any other call does. With the guard, the state left is the state `X` in which
+the failing statement was reached, with `_running` and `_calling` cleared and, appended to the event log (newest
+first): `stop_call` iff `_calling` was set, then `terminate` iff the object is not used as a context manager. From
+`iter(iterable)` on (kinds 5, 6, 7) `_calling` is set and `start_call` was the backend's last event: the
+`start_call` of the failed call is immediately answered by `stop_call`. -/
+theorem failed_start_releases_backend (c : Cfg) (f : Fault) (base : Nat) (spec : CallSpec) {s : St} (hi : Idle s) :
+    ∃ X : St, failedStart c true f base spec s =
+        { X with running := false, calling := false,
+                 log := (if X.managed then [] else ["terminate"]) ++ (if X.calling then ["stop_call"] else []) ++ X.log } ∧
+      X.managed = s.managed ∧ (5 ≤ f.kind → X.calling = true ∧ X.log.head? = some "start_call") := by
+  obtain ⟨X, e, hP, h5⟩ := failedStart_pre c true f base spec hi
+  obtain ⟨lg, e2, hlg⟩ := guardCleanup_true X hP.running
+  exact ⟨X, by rw [e, e2, hlg], hP.managed, h5⟩
+
+/-- NEXT CALL AFTER A FAILED START IS FRESH. After a failed start-up and whatever the schedule delivers at the hook
+point before the next call, `callStart` accepts the next call (no `RuntimeError`) and hands `_start` a fresh state: empty
+look-ahead queue and job queues, zero counters, the new input at position 0, a call id larger than that of every
+existing tracker. -/
+theorem next_call_after_failed_start_is_fresh (c : Cfg) (f : Fault) (fuel base₁ base₂ : Nat) (spec₁ spec₂ : CallSpec)
+    {s : St} (hi : Idle s) (hh : s.hung = false) :
+    ∃ sF, callStart c fuel base₂ spec₂ (hook c false (failedStart c true f base₁ spec₁ s)) = (start c fuel sF, none) ∧
+      sF.ready = [] ∧ sF.srcPos = 0 ∧ sF.jobs = [] ∧ sF.jobsSet = [] ∧ sF.nCompleted = 0 ∧ sF.nDispTasks = 0 ∧
+      sF.aborting = false ∧ sF.exception = false ∧ sF.base = base₂ ∧ sF.spec = spec₂ ∧
+      (∀ i, (getTrk sF i).callId < sF.callId) := by
+  obtain ⟨_, h2, h3, _, _⟩ := failed_start_leaves_clean c f base₁ spec₁ hi
+  obtain ⟨b1, b2, _⟩ := between_keeps (c := c) h2
+  obtain ⟨sF, he, z1, z2, z3, z4, z5, z6, z7, z8, z9, z10, _, z12⟩ :=
+    next_call_is_fresh c fuel base₂ spec₂ b1 (b2.trans (h3.trans hh))
+  exact ⟨sF, he, z1, z2, z3, z4, z5, z6, z7, z8, z9, z10, z12⟩
+
+/-- SECOND CALL CORRECT, histories with failed starts. After ANY history on one object — list-mode calls that return
+or raise (failing tasks, failing iterator, any schedule), start-ups that failed at any fault point, completions of
+leftover batches delivered between the calls, in any order and number (`Reach`) — a call whose own tasks do not fail
+returns exactly the results of ITS tasks, in order, and leaves the object idle and clean. -/
+theorem second_call_correct_after_failed_starts {c : Cfg} (hnj : 2 ≤ c.nj) (hbs : ∀ b ∈ c.bs, 1 ≤ b) (hra : c.ra ≠ 2)
+    (hpd : c.pdMode = 1 ∨ 1 ≤ c.pd) (hto : c.timeout = -1) {s₀ s : St} (hi : Idle s₀) (hh : s₀.hung = false)
+    (hr : Reach c s₀ s) {fuel base : Nat} {spec : CallSpec}
+    (hfail : ∀ id ∈ s₀.failIds, ¬ (base ≤ id ∧ id < base + spec.n)) (hiter : spec.iterfail = -1)
+    (hfuel : 2 * spec.n + s.sched.length + s.parked.length + 2 ≤ fuel) :
+    ∃ s', callList c fuel base spec s = (s', .ret (List.range' base spec.n)) ∧ Idle s' ∧ Clean s' := by
+  have hc : CfgOK c := ⟨by omega, hbs⟩
+  obtain ⟨r1, r2, r3⟩ := hr.idle hc hpd hi hh
+  obtain ⟨s', e, q1, q2, _, _⟩ := callList_nofail hc (by simp [ordered, hra]) (base := base) (spec := spec) r1 r2 hpd
+    (by rw [r3]; exact hfail) (by omega) (by omega) hfuel
+  exact ⟨s', e, q1, q2⟩
+
+/-- The same in unordered mode: a rearrangement of the results of the call's own tasks, each exactly once. -/
+theorem second_call_correct_after_failed_starts_unordered {c : Cfg} (hnj : 2 ≤ c.nj) (hbs : ∀ b ∈ c.bs, 1 ≤ b)
+    (hra : c.ra = 2) (hpd : c.pdMode = 1 ∨ 1 ≤ c.pd) (hto : c.timeout = -1) {s₀ s : St} (hi : Idle s₀)
+    (hh : s₀.hung = false) (hr : Reach c s₀ s) {fuel base : Nat} {spec : CallSpec}
+    (hfail : ∀ id ∈ s₀.failIds, ¬ (base ≤ id ∧ id < base + spec.n)) (hiter : spec.iterfail = -1)
+    (hfuel : 2 * spec.n + s.sched.length + s.parked.length + 2 ≤ fuel) :
+    ∃ s' out, callList c fuel base spec s = (s', .ret out) ∧ out.Perm (List.range' base spec.n) ∧ Idle s' ∧
+      Clean s' := by
+  have hc : CfgOK c := ⟨by omega, hbs⟩
+  obtain ⟨r1, r2, r3⟩ := hr.idle hc hpd hi hh
+  obtain ⟨s', out, e, hp, q1, q2, _, _⟩ := callList_nofail_u hc (by simp [ordered, hra]) (base := base) (spec := spec)
+    r1 r2 hpd (by rw [r3]; exact hfail) (by omega) (by omega) hfuel
+  exact ⟨s', out, e, hp, q1, q2⟩
+
+/-- Every history of calls / failed start-ups / between-calls completions ends in an idle object; anything may fail
+in the calls of the history. -/
+theorem history_leaves_idle {c : Cfg} (hnj : 2 ≤ c.nj) (hbs : ∀ b ∈ c.bs, 1 ≤ b) (hpd : c.pdMode = 1 ∨ 1 ≤ c.pd)
+    {s₀ s : St} (hi : Idle s₀) (hh : s₀.hung = false) (hr : Reach c s₀ s) :
+    Idle s ∧ s.hung = false ∧ s.failIds = s₀.failIds :=
+  hr.idle ⟨by omega, hbs⟩ hpd hi hh
+
+/-- SEQUENTIAL PATH. (1) The faults that strike before the `n_jobs == 1` test run the same `failedStart`
+(`failed_start_leaves_clean` needs no hypothesis on `n_jobs`). (2) `iter(iterable)` raises inside the output generator:
+its `except BaseException` / `finally` leave the object idle with `_exception` set, no task executed, `_calling`
+untouched. (3) After either, a sequential list-mode call that returns, returns exactly the results of its own tasks. -/
+theorem sequential_failed_start (c : Cfg) (f : Fault) (fuel base₁ base₂ : Nat) (spec₁ spec₂ : CallSpec) {s : St}
+    (hi : Idle s) (hfuel : spec₂.n + 2 ≤ fuel) :
+    (∃ s1 bs, seqStart c base₁ spec₁ s = (s1, { bs := bs }, none) ∧ Idle (failed s1) ∧ (failed s1).exception = true ∧
+      (failed s1).nCompleted = 0 ∧ (failed s1).calling = s.calling) ∧
+    (∀ s' v, seqCallList c fuel base₂ spec₂ (hook c false (failedStart c true f base₁ spec₁ s)) = (s', .ret v) →
+      v = List.range' base₂ spec₂.n ∧ Idle s') ∧
+    (∀ s' e, seqCallList c fuel base₂ spec₂ (hook c false (failedStart c true f base₁ spec₁ s)) = (s', .raised e) →
+      e ≠ .runtime ∧ Idle s') := by
+  obtain ⟨s1, bs, he, a1, a2, _, a4, _, _, a7⟩ := seq_iter_fault_idle c base₁ spec₁ hi
+  obtain ⟨_, h2, _, _, _⟩ := failed_start_leaves_clean c f base₁ spec₁ hi
+  obtain ⟨b1, _, _⟩ := between_keeps (c := c) h2
+  have hsp := seqCallList_spec c (fuel := fuel) (base := base₂) (spec := spec₂) b1 hfuel
+  refine ⟨⟨s1, bs, he, a1, a2, a4, a7⟩, ?_, ?_⟩
+  · intro s' v hv
+    rw [hv] at hsp
+    exact ⟨hsp.1, hsp.2.1⟩
+  · intro s' e hv
+    rw [hv] at hsp
+    refine ⟨?_, hsp.1⟩
+    rcases hsp.2.2.2.2.2.2 with ⟨h, _⟩ | ⟨pos, h, _⟩ <;> rw [h] <;> simp
+
+/-- COUNTEREXAMPLE for the code before the F52 repair (`startGuard = false`): a call whose `backend.start_call` raises,
+then a plain one-task call on the same object — the second call raises `RuntimeError` ("already running"). With the
+guard the same history returns the second call's result. -/
+theorem failed_start_counterexample :
+    (callList (⟨2, false, [1], 0, 2, 0, -1, false, true⟩ : Cfg) 50 1 ⟨1, [], -1, []⟩
+      (hook (⟨2, false, [1], 0, 2, 0, -1, false, true⟩ : Cfg) false
+        (failedStart (⟨2, false, [1], 0, 2, 0, -1, false, true⟩ : Cfg) false ⟨4, 0⟩ 0 ⟨1, [], -1, []⟩ {}))).2
+      = .raised .runtime ∧
+    (callList (⟨2, false, [1], 0, 2, 0, -1, false, true⟩ : Cfg) 50 1 ⟨1, [], -1, []⟩
+      (hook (⟨2, false, [1], 0, 2, 0, -1, false, true⟩ : Cfg) false
+        (failedStart (⟨2, false, [1], 0, 2, 0, -1, false, true⟩ : Cfg) true ⟨4, 0⟩ 0 ⟨1, [], -1, []⟩ {}))).2
+      = .ret [1] := by decide
+
+/-- Without the guard EVERY failed start-up, at any fault point, from any idle state, leaves `_running` set — so the
+next call raises `RuntimeError` and changes nothing (`overlapping_call_raises`). -/
+theorem failed_start_unguarded_blocks_next_call (c : Cfg) (f : Fault) (fuel base₁ base₂ : Nat) (spec₁ spec₂ : CallSpec)
+    {s : St} (hi : Idle s) :
+    (failedStart c false f base₁ spec₁ s).running = true ∧
+    callList c fuel base₂ spec₂ (failedStart c false f base₁ spec₁ s) =
+      (failedStart c false f base₁ spec₁ s, .raised .runtime) := by
+  have h := failedStart_unguarded_running c f base₁ spec₁ hi
+  exact ⟨h, overlapping_call_raises c fuel base₂ spec₂ _ h⟩
+
+/-- CONSERVATIVE EXTENSION. A scenario in which no fault is placed has, in the extended model, exactly the event log of
+the old one — on both paths and for either position of the guard switch: every theorem above about `callList`,
+`runCallList`, … is a theorem about the fault-free calls of the extended scenarios. -/
+theorem no_fault_is_old_model (c : Cfg) (guard : Bool) (calls : List CallSpec) (sched : List (List Nat)) :
+    runScenarioF c guard {} (calls.map (fun cs => (cs, ({} : Fault)))) sched = runScenario c calls sched ∧
+    runScenarioSeqF c guard {} (calls.map (fun cs => (cs, ({} : Fault)))) sched = runScenarioSeq c calls sched :=
+  ⟨runScenarioF_nofault c guard calls sched, runScenarioSeqF_nofault c guard calls sched⟩
+
+/-! the hypotheses are satisfiable: the whole scenario of harness/ctl.py, two calls, the first one's `pre_dispatch`
+cannot be resolved (`ValueError`), outside a with block -/
+
+example : runScenarioF (⟨2, false, [1], 0, 2, 0, -1, false, true⟩ : Cfg) true {}
+      [(⟨3, [], -1, []⟩, ⟨6, 1⟩), (⟨1, [], -1, []⟩, {})] [] =
+    ["call 0", "configure", "start_call", "stop_call", "terminate", "raise ValueError",
+     "call 1", "configure", "start_call", "pull 3", "submit 3", "complete 3", "exec 3", "stop_call", "terminate",
+     "ret 3"] := by decide
+
+example : runScenarioF (⟨2, false, [1], 0, 2, 0, -1, false, true⟩ : Cfg) false {}
+      [(⟨3, [], -1, []⟩, ⟨6, 1⟩), (⟨1, [], -1, []⟩, {})] [] =
+    ["call 0", "configure", "start_call", "raise ValueError", "call 1", "raise RuntimeError"] := by decide
+
+end Startup
 
 end C04
